@@ -112,32 +112,33 @@ func show(o object.Object) (s string) {
 	// (printing is the harness's own act: a value with millions of paths - a
 	// few dozen arrays each holding the next one twice - is not printed)
 	budget := 200000
-	if !printable(o, &budget) {
-		return string(o.Type()) + ":<more than 200000 nested values>"
+	if !printable(o, &budget, 0) {
+		return string(o.Type()) + ":<too large or too deeply nested to print>"
 	}
 	return string(o.Type()) + ":" + o.Inspect()
 }
 
 // printable walks a value as printing would and gives up when the budget is
-// spent.
-func printable(o object.Object, budget *int) bool {
+// spent or the nesting is deep (printing copies the text of every level into
+// the level above: the cost is quadratic in the depth).
+func printable(o object.Object, budget *int, depth int) bool {
 	*budget--
-	if *budget < 0 {
+	if *budget < 0 || depth > 3000 {
 		return false
 	}
 	switch v := o.(type) {
 	case *object.Array:
 		for _, e := range v.Elements {
-			if e != nil && !printable(e, budget) {
+			if e != nil && !printable(e, budget, depth+1) {
 				return false
 			}
 		}
 	case *object.Hash:
 		for _, p := range v.Pairs {
-			if p.Key != nil && !printable(p.Key, budget) {
+			if p.Key != nil && !printable(p.Key, budget, depth+1) {
 				return false
 			}
-			if p.Value != nil && !printable(p.Value, budget) {
+			if p.Value != nil && !printable(p.Value, budget, depth+1) {
 				return false
 			}
 		}
